@@ -844,6 +844,28 @@ def lower_package(trees):
     if stats['inlined']:
         for tree in trees.values():
             _FlattenStar().visit(tree)
+    # class-level method aliases  `visitPow = visitAddition`  become definitions of their own (the same function under another name)
+    stats['method_alias'] = 0
+    for tree in trees.values():
+        for st in tree.body:
+            if not isinstance(st, ast.ClassDef):
+                continue
+            defs_here = {}
+            new_body = []
+            for s2 in st.body:
+                if isinstance(s2, ast.FunctionDef):
+                    defs_here[s2.name] = s2
+                if isinstance(s2, ast.Assign) and len(s2.targets) == 1 and isinstance(s2.targets[0], ast.Name) and isinstance(s2.value, ast.Name) and s2.value.id in defs_here \
+                        and not defs_here[s2.value.id].decorator_list:
+                    cp = copy.deepcopy(defs_here[s2.value.id])
+                    cp.name = s2.targets[0].id
+                    ast.copy_location(cp, s2)
+                    defs_here[cp.name] = cp
+                    new_body.append(cp)
+                    stats['method_alias'] += 1
+                    continue
+                new_body.append(s2)
+            st.body = new_body
     stats['tuple_assign'] = 0
     stats['child_alias'] = 0
     for tree in trees.values():
